@@ -17,7 +17,9 @@ static inline int sqlite3_threadsafe(void) { return nondet_int(); }
 static inline const char *sqlite3_errstr(int rc) { return "e"; }
 static inline int sqlite3_open(const char *path, struct sqlite3 **out) {
   g_opens++;
-  if (nondet_bool()) { *out = 0; return 14; }              /* failure: modelled without a handle */
+  if (nondet_bool()) {                                     /* failure: with or without a handle ("whether or not an error occurs ... the handle should be released by sqlite3_close") */
+    if (nondet_bool()) { *out = 0; return 14; }
+    struct sqlite3 *f = malloc(sizeof(struct sqlite3)); __CPROVER_assume(f != 0); *out = f; g_handle = f; return 14; }
   struct sqlite3 *h = malloc(sizeof(struct sqlite3)); __CPROVER_assume(h != 0); *out = h; g_handle = h; return 0; }
 static inline int sqlite3_close(struct sqlite3 *db) {         /* sqlite3_close(NULL) is a harmless no-op */
   if (db) { __CPROVER_assert(db == g_handle, "[P:C03] the connection that is closed is the open one"); g_handle = 0; g_closes++; } return 0; }
